@@ -351,6 +351,75 @@ func checkC08(e *core.Env) {
 		}
 	})
 
+	// Header() already waiting in one goroutine when another asks for the response (an interceptor or a metrics
+	// hook next to the application's CloseAndRecv): whatever the two share between them, the call with two
+	// responses does not succeed and the one with a single response does
+	e.Cases("header-waiting-while-receiving", e.N(20, 200), func(i int, r *rand.Rand) {
+		for _, c := range []*Carrier{cs.list[0], cs.list[1]} {
+			nresp := 1 + i%2
+			sc := &Script{Kind: ClientStream}
+			sc.Sender = []Op{{Op: "send", Msg: genMsg(r, "hw-req", false)}, {Op: "close"}, {Op: "header"}}
+			sc.Receiver = []Op{{Op: "gate", Gate: "header-waiting"}, {Op: "recv"}, {Op: "recv"}}
+			sc.Handler = []Op{{Op: "recvall"}, {Op: "gate", Gate: "both-waiting"}}
+			for k := 0; k < nresp; k++ {
+				sc.Handler = append(sc.Handler, Op{Op: "send", Msg: genMsg(r, fmt.Sprintf("hw-resp-%d", k), false)})
+			}
+			run := c.Svc.NewRun(sc, c.Name)
+			done := make(chan bool, 1)
+			go func() {
+				ok, _ := run.Exec(c.CC, nil, watchdog)
+				done <- ok
+			}()
+			// the sender's Header() call has started and the log has gone quiet, then the receiver starts, then the handler answers
+			quiet := func(want func([]Event) bool) bool {
+				last, same := -1, 0
+				for k := 0; k < 2000; k++ {
+					evs := run.Events()
+					if want(evs) {
+						if len(evs) == last {
+							same++
+						} else {
+							last, same = len(evs), 0
+						}
+						if same >= 3 {
+							return true
+						}
+					}
+					time.Sleep(time.Millisecond)
+				}
+				return false
+			}
+			hw := quiet(func(evs []Event) bool {
+				for _, ev := range evs {
+					if ev.Who == "cs" && ev.Op == "header" && ev.Call {
+						return true
+					}
+				}
+				return false
+			})
+			run.Release("header-waiting")
+			rw := quiet(func(evs []Event) bool {
+				for _, ev := range evs {
+					if ev.Who == "cr" && ev.Op == "recv" && ev.Call {
+						return true
+					}
+				}
+				return false
+			})
+			run.Release("both-waiting")
+			ok := <-done
+			run.Cancel()
+			c.Svc.Forget(run)
+			if !ok {
+				run.ReleaseAll()
+				e.Inconclusive("C08 header-waiting-while-receiving %s: watchdog", c.Name)
+				continue
+			}
+			e.Eval(fmt.Sprintf("header-waiting|%s|n=%d", c.Name, nresp), hw && rw)
+			judgeCardinality(e, c, run, nresp)
+		}
+	})
+
 	// more than one response on a single-response method, with the transport's reader placed: it has read the
 	// second response and handed it over, and is held at the next frame (the OK trailer) until the client's receive
 	// has reported the failure; it then goes on and reads the trailer. Whatever the client asks afterwards, the
